@@ -3,7 +3,10 @@ import Proofs.C18
 #print axioms Xsel.C18.exec_seed_position
 #print axioms Xsel.C18.exec_seed_last
 #print axioms Xsel.C18.stepFrom_spec
+#print axioms Xsel.C18.compose_path_general
+#print axioms Xsel.C18.resolve_absorbed
 #print axioms Xsel.C18.compose_path
+#print axioms Xsel.C18.compose_path_unbound
 #print axioms Xsel.C18.compose_path_spec
 #print axioms Xsel.C18.applyPreds_ctx
 #print axioms Xsel.C18.stepFrom_is_eval
